@@ -159,6 +159,9 @@ def compare_docs(ctx, doc, l2, kind, allowed_extra=()):
 
 # ------------------------------------------------------------------------------------------------ generators
 
+MIXED = [0]
+
+
 def gen_topology_doc(rng):
     flavour = rng.choice(['mesh', 'mesh', 'raman', 'multiband'])
     if flavour == 'raman':
@@ -208,6 +211,23 @@ def gen_topology_doc(rng):
                 e['params'][k] = {d: v for d, v in e['params'][k].items() if d in uids}
                 if not e['params'][k]:
                     e['params'].pop(k)
+    # a ROADM may mix the three per-degree target types (one type per degree): the documents are compared as they
+    # are, so the degree can be named by the element that follows the ROADM in the document
+    if flavour == 'mesh':
+        kinds3 = [('per_degree_pch_out_db', [-20.5, -18.5, -22]), ('per_degree_psd_out_mWperGHz', [3.125e-4, 2e-4]),
+                  ('per_degree_psd_out_mWperSlotWidth', [2e-4, 1.2e-4])]
+        for e in tj['elements']:
+            if e['type'] != 'Roadm' or rng.random() < 0.5:
+                continue
+            succ = [c['to_node'] for c in tj['connections'] if c['from_node'] == e['uid']
+                    and not c['to_node'].startswith('trx')]
+            taken = {d for k, _ in kinds3 for d in e.get('params', {}).get(k, {})}
+            succ = [d for d in succ if d not in taken]
+            rng.shuffle(succ)
+            for d, (k, vals) in zip(succ, rng.sample(kinds3, len(kinds3))):
+                e.setdefault('params', {}).setdefault(k, {})[d] = rng.choice(vals)
+            if len([k for k, _ in kinds3 if e.get('params', {}).get(k)]) >= 2:
+                MIXED[0] += 1
     # values with more digits than declared, cities, nulls
     for e in tj['elements']:
         loc = e['metadata']['location']
@@ -331,7 +351,10 @@ def export_of(tj, equipment):
 
 def run_topology(ctx):
     rng = ctx.rng
+    MIXED[0] = 0
     tj, ename, flavour = gen_topology_doc(rng)
+    for _ in range(MIXED[0]):
+        ctx.count('roadms_mixing_per_degree_target_types')
     ctx.dump.update({'document': tj})
     rt = roundtrip(ctx, tj, 'topology')
     if rt is None:
@@ -476,8 +499,16 @@ def run_alias(ctx):
     trx = deepcopy(next(t for t in ej['Transceiver'] if t['type_variety'] == 'Voyager'))
     trx['type_variety'] = 'vfTrxA'
     trx['other_name'] = [f'vfTrx_alias{i}' for i in range(rng.randint(1, 3))]
-    if rng.random() < 0.5:
-        trx['mode'][0]['other_name'] = ['m1-alias']
+    # mode aliases, on modes with and without a penalty table
+    mode_alias = {}
+    for i, m in enumerate(trx['mode']):
+        if rng.random() < 0.4:
+            m['penalties'] = [{'chromatic_dispersion': 4e3, 'penalty_value': 0},
+                              {'chromatic_dispersion': 40e3, 'penalty_value': 0.5},
+                              {'pmd': 10, 'penalty_value': 0}, {'pmd': 30, 'penalty_value': 0.5}]
+        if rng.random() < 0.5:
+            m['other_name'] = [f'{m["format"]}-alias{k}' for k in range(rng.randint(1, 2))]
+            mode_alias[m['format']] = list(m['other_name'])
     ej['Transceiver'].append(trx)
     for form in ('legacy', 'yang'):
         doc = deepcopy(ej)
@@ -501,6 +532,22 @@ def run_alias(ctx):
                     ctx.violation('alias-name', f'{form}: {typ} entry loaded under the name {n} reports the name '
                                   f'{objs[n].type_variety}', mechanism='transceiver-alias-reports-other-name'
                                   if typ == 'Transceiver' else None)
+            if typ == 'Transceiver':
+                # every mode alias is a mode of every name of the transceiver, identical to its mode but for the name
+                for n, o in objs.items():
+                    by_format = {m['format']: m for m in o.mode}
+                    for fmt, aliases in mode_alias.items():
+                        for al in aliases:
+                            ctx.count('mode_alias_checks')
+                            if al not in by_format or fmt not in by_format:
+                                ctx.violation('alias-missing', f'{form}: transceiver {n}: mode {al} declared as a name '
+                                              f'of mode {fmt} is not in the loaded library (modes {sorted(by_format)})')
+                                continue
+                            a = {k: v for k, v in by_format[fmt].items() if k != 'format'}
+                            b = {k: v for k, v in by_format[al].items() if k != 'format'}
+                            if json.dumps(a, sort_keys=True, default=str) != json.dumps(b, sort_keys=True, default=str):
+                                ctx.violation('alias-parameters', f'{form}: transceiver {n}: mode {al} differs from '
+                                              f'{fmt}')
             base = attr_dict(objs.get(names[0]))
             for n, o in objs.items():
                 d = attr_dict(o)
